@@ -7,6 +7,61 @@ package circuitbreaker
 
 //@ global ErrBreaker != nil
 
+// The breaker's state is shared between concurrent calls only through
+// sync/atomic; no store publishes a value computed from an earlier read of
+// the same field (that would lose concurrent failures).
+//@ rule atomic_only CircuitBreaker.failCount prop=C20
+//@ rule atomic_only CircuitBreaker.lastFailTime prop=C20
+//@ rule atomic_rmw CircuitBreaker.failCount prop=C20
+//@ rule atomic_rmw CircuitBreaker.lastFailTime prop=C20
+// the configuration is written only by the constructor and its options
+//@ rule encapsulated CircuitBreaker.threshold funcs=New,WithThreshold,(*CircuitBreaker).Threshold,(*CircuitBreaker).IOHandler prop=C20
+//@ rule encapsulated CircuitBreaker.recoverTime funcs=New,WithRecoverTime,(*CircuitBreaker).RecoverTime,(*CircuitBreaker).IOHandler prop=C20
+//@ rule encapsulated CircuitBreaker.mockService funcs=WithMockService,(*CircuitBreaker).MockService,(*CircuitBreaker).InvokeHandler prop=C20
+//@ rule encapsulated CircuitBreaker.failCount funcs=(*CircuitBreaker).IOHandler prop=C20
+//@ rule encapsulated CircuitBreaker.lastFailTime funcs=(*CircuitBreaker).IOHandler prop=C20
+
+// Construction: defaults threshold 5 / 30s, then each option in order; what
+// the last option (if any) left in the configuration is what New returns.
+//@ ghost opt_threshold int
+//@ ghost opt_recover int
+//@ ghost opt_mock MockService
+//@ type Option(cb)
+//@   havoc
+//@   modifies ghost.opt_threshold, ghost.opt_recover, ghost.opt_mock
+//@   ensures ghost.opt_threshold == cb.threshold && ghost.opt_recover == cb.recoverTime && ghost.opt_mock == cb.mockService
+//@   ensures cb.failCount == old(cb.failCount) && cb.lastFailTime == old(cb.lastFailTime)
+
+//@ func WithThreshold$1
+//@   prop C20
+//@   nopanic
+//@   modifies cb.threshold
+//@   ensures [sets_threshold] cb.threshold == threshold
+
+//@ func WithRecoverTime$1
+//@   prop C20
+//@   nopanic
+//@   modifies cb.recoverTime
+//@   ensures [sets_recover_time] cb.recoverTime == recoverTime
+
+//@ func WithMockService$1
+//@   prop C20
+//@   nopanic
+//@   modifies cb.mockService
+//@   ensures [sets_mock_service] cb.mockService == mockService
+
+//@ func New
+//@   prop C20
+//@   havoc
+//@   modifies ghost.opt_threshold, ghost.opt_recover, ghost.opt_mock
+//@   loop 1 invariant -1 <= rangeindex && rangeindex <= len(options) - 1 && isnew(cb) && cb.failCount == 0 && cb.lastFailTime == 0 &&
+//@       (rangeindex == -1 ==> cb.threshold == 5 && cb.recoverTime == 30000000000 && cb.mockService == nil) &&
+//@       (rangeindex >= 0 ==> cb.threshold == ghost.opt_threshold && cb.recoverTime == ghost.opt_recover && cb.mockService == ghost.opt_mock)
+//@   ensures [starts_closed] result != nil && result.failCount == 0 && result.lastFailTime == 0
+//@   ensures [defaults_without_options] len(options) == 0 ==> result.threshold == 5 && result.recoverTime == 30000000000 && result.mockService == nil
+//@   ensures [options_have_the_last_word] len(options) > 0 ==>
+//@       result.threshold == ghost.opt_threshold && result.recoverTime == ghost.opt_recover && result.mockService == ghost.opt_mock
+
 //@ ghost mock_calls int
 //@ ghost mock_result []interface{}
 //@ ghost mock_err error
